@@ -590,6 +590,48 @@ ADDED3 = {
 }
 
 
+ADDED4 = {
+    "C02": "response headers the client converts to numbers (22 numeric "
+           "lexeme classes in WBEMServerResponseTime / Content-Length; stage "
+           "`header`, leak RespTimeInt).",
+    "C03": "arrays of reference values in method parameters (legacy "
+           "configuration WireOpsImplLegacyRefArray must fail), header values "
+           "combining edge blanks with %-escapes.",
+    "C08": "compiler sessions containing a rejected text before the round "
+           "trip (fail(syntax|dependency|embdep|embsyntax) steps; "
+           "MofTextDeclMCLegacyEmbMode must fail).",
+    "C09": "multi-line embedded instance values in include files and in "
+           "later productions (line numbers of the nested compile).",
+    "C10": "NewInstance carrying a path with another namespace or host, "
+           "LocalOnly / IncludeQualifiers / IncludeClassOrigin on Get and "
+           "Enumerate.",
+    "C11": "DeleteClass of a subtree with an instance-less subclass in front "
+           "of provider instances, two spellings of one other namespace in "
+           "the references of one association, three-namespace associations "
+           "with some copies missing (Delete/ModifyInstance prechecks).",
+    "C14": "association filter arguments on the four association Opens "
+           "(dimension flt: none / keeps all / drops some).",
+    "C16": "callbacks raising exceptions without arguments or with "
+           "non-string arguments; a callback registered with add_callback() "
+           "while the listener runs (Listener.tla constants LateCb / CbList, "
+           "ListenerLateSnapshot must fail; requirement event add_callback).",
+    "C17": "65 more (position, class) pairs: nine XML-Char classes in every "
+           "echoed string, case variants of compared names and header "
+           "values, nesting depth of embedded instances and reference keys "
+           "(ListenerHttpEchoRestricted / ParamCiCheck / LegacyDeep must "
+           "fail).",
+    "C18": "empty ids, cross-manager subscriptions blocking a removal "
+           "(Blocked outcome, PartialSrv state, clause OwnedLists."
+           "Retrievable), list and default argument shapes of "
+           "add_subscriptions / remove_* (SeqCall).",
+    "C19": "the switching-on phase itself (ObserverAttach.tla: plans of 1..3 "
+           "enabling calls x four x509 shapes x four detail kinds; clause "
+           "SwitchOn.EnablingAnObserverNeverFails), 135 argument variants "
+           "derived from the signatures of all 34 operations (locally "
+           "rejected values; ObserverImplLegacyUnbound must fail).",
+}
+
+
 def main():
     props = [json.loads(l) for l in open(os.path.join(VERIF, "properties.jsonl"))]
     checks = []
@@ -602,6 +644,8 @@ def main():
                 text = text + " " + ADDED[pid]
             if pid in ADDED3:
                 text = text + " Third round: " + ADDED3[pid]
+            if pid in ADDED4:
+                text = text + " Fourth round: " + ADDED4[pid]
             checks.append({
                 "property_id": pid,
                 "quick_cmd": "bin/check %s --tier quick" % pid,
